@@ -57,6 +57,10 @@ func (in *Interp) installStubs7() {
 	}
 	S["time.Now"] = func(in *Interp, a []Value) Value {
 		in.StubHits["ambient: time.Now"]++
+		if in.AmbientOn && !in.NowAllowed {
+			m := in.Ctx.Model()
+			panic(&Violation{Kind: "ambient", Msg: "time.Now read outside the now builtin, from " + in.where(), Model: m, Replay: in.Ctx.ReplayValues(m), Labels: append([]string(nil), in.Labels...)})
+		}
 		return in.timeVal(time.Unix(1700000000, 0), in.zeroTime())
 	}
 	S["time.Date"] = func(in *Interp, a []Value) Value {
